@@ -421,6 +421,37 @@ fn run_dump(args: &Args) -> Report {
             rep.case("dump-setseq", &req, &ans, &ans, true, if ans.starts_with("ok") { "ok" } else { &ans });
         }
     }
+    // exhaustive small scope: every string over the parser's class alphabet, as input against a few
+    // bases and as the value of every setter on a few URLs
+    let k = if args.tier == "thorough" { 4 } else { 3 };
+    let xb = ["~", "http://u:p@h:81/a/b?q#f", "file:///c:/d/e", "file://h/x", "non-spec://h/a/b", "non-spec:/a/b", "mailto:x"];
+    for b in xb {
+        let bt = if b == "~" { "~".to_string() } else { hexs(b) };
+        for_all_strings(&URL_CLASS, k, |cs| {
+            let s: String = cs.iter().collect();
+            let req = format!("parse {} {}", bt, hexs(&s));
+            let ans = drv.ask_with(&req, oracle);
+            writeln!(out.borrow_mut(), "P\t{}\t{}\t{}", bt, hexs(&s), ans).unwrap();
+            rep.case("dump-exh-parse", &req, &ans, &ans, true, if ans.starts_with("ok") { "ok" } else { &ans });
+        });
+    }
+    let xs = ["http://u:p@h:81/a/b?q#f", "https://h", "file:///c:/d", "file://h/x", "non-spec://u@h:9/a", "non-spec:/.//p", "a:/", "a://", "mailto:x y ", "data:x #f"];
+    for href in xs {
+        for name in KEYS {
+            for_all_strings(&URL_CLASS, k - 1, |cs| {
+                let v: String = cs.iter().collect();
+                let ops = format!("{}={}", name, hexs(&v));
+                let req = format!("setseq {} {}", hexs(href), ops);
+                let ans = drv.ask_with(&req, oracle);
+                writeln!(out.borrow_mut(), "Q\t{}\t{}\t{}", hexs(href), ops, ans).unwrap();
+                rep.case("dump-exh-set", &req, &ans, &ans, true, if ans.starts_with("ok") { "ok" } else { &ans });
+            });
+        }
+    }
+    rep.exhaustive.push(format!(
+        "parse: all strings of length <= {} over a 24-character class alphabet x 7 bases; setters: all values of length <= {} x 10 setters x 10 URLs",
+        k, k - 1
+    ));
     out.borrow_mut().flush().unwrap();
     rep
 }
